@@ -1,8 +1,12 @@
 use std::cell::RefCell;
 use std::collections::HashMap;
+#[cfg(not(feature = "uflow_verif"))]
 use std::net;
 use std::rc::Rc;
+#[cfg(not(feature = "uflow_verif"))]
 use std::time;
+#[cfg(feature = "uflow_verif")]
+use crate::verif::{net, time, rand};
 
 use crate::EndpointConfig;
 use crate::frame::serial::Serialize;
